@@ -617,11 +617,15 @@ def check_algebra(ctx, rng, reqs, metas, n_cases):
                         "to": None if rng.random() < 0.5 else rng.randint(0, n_maps + 1)})
         shape, other = _rand_other(rng)
         final = rng.choice(["appendMapping", "appendMappingInverted", "appendMapping", "appendMappingInverted",
-                            "invert", "slice", "appendMap", "appendThenSlice"])
+                            "invert", "slice", "appendMap", "appendThenSlice", "invertTwice"])
         if final in ("appendMapping", "appendMappingInverted"):
             ops.append({"k": final, "mapping": other})
         elif final == "invert":
             ops.append({"k": "appendMapping", "mapping": other})
+            ops.append({"k": "invert"})
+        elif final == "invertTwice":
+            ops.append({"k": "appendMapping", "mapping": other})
+            ops.append({"k": "invert"})
             ops.append({"k": "invert"})
         elif final == "appendMap":
             ops.append({"k": "appendMap", "m": [random_map(rng, 2), rng.random() < 0.25], "mirrors": None})
@@ -667,6 +671,12 @@ def check_algebra(ctx, rng, reqs, metas, n_cases):
                                   {"ops": ops, "mirror": list(m.mirror or []), "index": i, "partner": k})
                     break
             last = ops[-1]
+            if final == "invertTwice":
+                # inversion is an involution up to the bounds: inverting twice maps like the original read as a whole
+                whole = apply_ops(ops[:-2]).slice(0)
+                if _observe(whole, 0, n) != obs:
+                    ctx.violation("invert-involutive", "a mapping inverted twice does not map like the mapping read as a whole",
+                                  {"ops": ops})
             if last["k"] in ("appendMapping", "appendMappingInverted", "appendMap"):
                 recv = apply_ops(ops[:-1])
                 if True:
